@@ -89,7 +89,7 @@ def _mk(o):
     if k == 'A':
         return IPAddress(o[2], o[1])
     if k == 'N':
-        return IPNetwork((o[2], o[3]), version=o[1])
+        return common.make_net(o[1], o[2], o[3])
     if k == 'R':
         return IPRange(IPAddress(o[2], o[1]), IPAddress(o[3], o[1]))
     if k == 'G':
@@ -354,7 +354,7 @@ def _shown(n):
 def _cand_obj(c):
     ver, v, p, form = c
     if form == 'net':
-        return IPNetwork((v, p), version=ver)
+        return common.make_net(ver, v, p)
     if form == 'addr':
         return IPAddress(v, ver)
     if form == 'astr':
